@@ -848,6 +848,9 @@ func (f *Field) newView(path, name string) *view {
 
 // deleteView removes the view from the field.
 func (f *Field) deleteView(name string) error {
+	f.mu.Lock()
+	defer f.mu.Unlock()
+
 	view := f.viewMap[name]
 	if view == nil {
 		return ErrInvalidView
